@@ -146,11 +146,14 @@ def gtom(adj, nr_steps):
         return bm
     else:
         for steps in range(2, nr_steps):
+            # neighborhoods at the start of this step: every node is expanded
+            # from the same matrix, so the result does not depend on node order
+            bm_prev = bm_aux.copy()
             for i in range(nr_nodes):
                 # neighbors of node i
-                ng_col, = np.where(bm_aux[i, :] == 1)
+                ng_col, = np.where(bm_prev[i, :] == 1)
                 # neighbors of neighbors of node i
-                nng_row, nng_col = np.where(bm_aux[ng_col, :] == 1)
+                nng_row, nng_col = np.where(bm_prev[ng_col, :] == 1)
                 new_ng = np.setdiff1d(nng_col, (i,))
 
                 # neighbors of neighbors of i become considered neighbors of i
